@@ -125,6 +125,62 @@ class ResolveArguments(Target):
         return [] if sv == nv else ["arguments: symbolic %r vs native %r" % (sv, nv)]
 
 
+class DataReferencesOrder(Target):
+    """ComponentSpecification.dataReferences: the list resolveArguments substitutes in order.  Direct (input) references
+    come BEFORE component references -- the substitution loop relies on it: the relative spelling `A:ref` of a component
+    reference is a tail of a direct reference such as `data/A:ref`, which therefore has to be replaced first -- every
+    declared reference appears exactly once, and within each kind the declaration order is kept (so the result is a
+    function of the declaration, not of incidental ordering)."""
+    prop = 'C10'
+    name = 'ComponentSpecification.dataReferences'
+    file = G
+    qualname = 'ComponentSpecification.dataReferences'
+    inline_class = {'this': (G, 'ComponentSpecification')}
+    compare_return = False
+    trusted = ["DataReference.isDirectReference (graph lookup)", "configuration.dataReferencesForNode returns the declared references"]
+    assumptions = ["<= 3 declared references, each direct or to a component, every declaration order"]
+
+    def setup(self, c):
+        n = 1 + c.choice('references', 3)
+        kinds = [c.one_of('ref%d.is' % i, ['component', 'direct']) for i in range(n)]
+        declared = ['%s%d%s:ref' % ('data/' if k == 'direct' else '', i, 'A') for i, k in enumerate(kinds)]
+        graph = Obj('graph', dataReferencesForNode=Extern('dataReferencesForNode', lambda c, name: list(declared)))
+        this = Obj('spec', workflowGraphRef=Extern('workflowGraphRef', lambda c: graph), workflowGraph=graph,
+                   identification=Obj('cid', identifier='stage1.me', stageIndex=1))
+        return State(args=[this], this=this, kinds=kinds, declared=declared, graph=graph)
+
+    def real_function(self):
+        import experiment.model.graph as graph_mod
+        return graph_mod.ComponentSpecification.dataReferences.fget
+
+    def externs(self, c, st):
+        def make(c, r, stageIndex=None):
+            direct = st.kinds[st.declared.index(r)] == 'direct'
+            return Obj('DataReference(%s)' % r, text=r, stage=stageIndex, isDirectReference=Extern('isDirectReference', lambda c, g: direct),
+                       stringRepresentation=r)
+        return {'DataReference': Extern('DataReference', make)}
+
+    def ensures(self, c, st, out):
+        if out.kind == 'raise':
+            return [('no-exception', False)]
+        got = list(out.value)
+        texts = [g.text for g in got]
+        is_direct = [st.kinds[st.declared.index(t)] == 'direct' for t in texts]
+        firsts = [i for i, d in enumerate(is_direct) if not d]
+        inputs_first = all(not d for d in is_direct[firsts[0]:]) if firsts else True
+        want_direct = [t for t, k in zip(st.declared, st.kinds) if k == 'direct']
+        want_comp = [t for t, k in zip(st.declared, st.kinds) if k == 'component']
+        return [('direct-references-come-before-component-references', inputs_first),
+                ('every-declared-reference-exactly-once', sorted(texts) == sorted(st.declared)),
+                ('declaration-order-is-kept-within-each-kind', [t for t, d in zip(texts, is_direct) if d] == want_direct and
+                 [t for t, d in zip(texts, is_direct) if not d] == want_comp),
+                ('component-references-carry-the-consumer-stage-direct-ones-do-not',
+                 all((g.stage is None) == d for g, d in zip(got, is_direct)))]
+
+    def cross_compare(self, *a):
+        return []
+
+
 class ResolveOutputContents(Target):
     """'... or the contents of the referenced file for output references': DataReference.resolve on an :output reference
     to a file returns the file's bytes decoded as UTF-8 (undecodable bytes replaced) without trailing newlines -- a
@@ -227,5 +283,5 @@ class ResolveArgumentsUnresolved(ResolveArguments):
         return [('an-unresolved-reference-never-becomes-the-text-None', bool(same(st.env['arguments'], st.want, c)))]
 
 
-TARGETS = [ResolveArguments(), ResolveArgumentsUnresolved(), ResolveOutputContents()]
+TARGETS = [ResolveArguments(), ResolveArgumentsUnresolved(), ResolveOutputContents(), DataReferencesOrder()]
 LEMMAS = []
